@@ -8,7 +8,7 @@ from vlib.engine import Outcome
 
 PROPERTY = 'C13'
 RULE = ('Real UDPCL agents over an in-memory datagram network: one or two senders queue 1-3 real (reference-encoded) '
-        'bundles through the send_bundle_data D-Bus method with mtu_default from {None, 64, 65, 100, 256, 300, 1200, 9000} '
+        'bundles through the send_bundle_data D-Bus method with mtu_default from {None, 64, 65, 100, 256, 300, 1200, 9000} or any value in 24..330 (every one of them enumerated) '
         'and bundle lengths on CBOR head boundaries and at mtu-60..mtu+100; the paced transmit path runs on the virtual '
         'clock and every datagram handed to sendmsg is captured.  The captured datagrams then arrive at a real receiver '
         'in a generated order (each at least once), with exact repeats, with zero padding appended, and with two messages '
@@ -22,11 +22,11 @@ RULE = ('Real UDPCL agents over an in-memory datagram network: one or two sender
 SHRINK_KEYS = ('ops',)
 SHRINK_KINDS = ('list',)
 ASSUMPTIONS = [
-    'mtu >= 64 (a smaller MTU cannot hold the extension map at all); without an MTU bundles stay below the UDP limit',
+    'mtu >= 24; without an MTU bundles stay below the UDP limit',
     'bundles are real RFC 9171 encodings (an unsegmented datagram is recognised by its CBOR array head)',
     'the transmit pacing runs on the virtual clock (time.monotonic_ns inside udpcl.agent is rebound)',
 ]
-EXHAUSTIVE_PART = 'all arrival permutations of the segments of enumerated transfers with <= 5 segments'
+EXHAUSTIVE_PART = 'all arrival permutations of the segments of enumerated transfers with <= 5 segments; every mtu in 24..330 (quick: 24..79, 250..299) with two bundle lengths'
 
 
 def prepare():
@@ -50,6 +50,10 @@ def enumerate_cases(tier):
     for mtu in (64, 100, 300, 1200):
         for rel in (-2, -1, 0, 1, 2, 3):
             yield {'mtu': mtu, 'sends': [{'plen': 10, 'seed': 5, 'peer': 1, 'rel': rel}], 'ops': [], 'queries': ['pop'], 'poll': False}
+    # every MTU around the CBOR head-width boundaries of the per-segment size computation
+    for mtu in range(24, 331) if tier != 'quick' else itertools.chain(range(24, 80), range(250, 300)):
+        for plen in (3 * mtu + 7, 700):
+            yield {'mtu': mtu, 'sends': [{'plen': plen, 'seed': 3, 'peer': 1}], 'ops': [['d', 1, 0]], 'queries': ['pop'], 'poll': False}
     for mtu, plen in combos:
         base = {'mtu': mtu, 'sends': [{'plen': plen, 'seed': 3, 'peer': 1}], 'queries': ['queue', 'pop'], 'poll': False}
         # the number of segments is not known here: permutations are expressed as removal indices
